@@ -252,6 +252,9 @@ impl Family for ChunkerWFamily {
     /// early stay held while later blocks are read into the same arena (and while the arena moves on to
     /// fresh regions), then go in FIFO order.
     fn gen_case(&self, rng: &mut Rng, idx: u64, thorough: bool) -> Vec<String> {
+        if rng.chance(1, 3) {
+            return rollover_chunker_case(rng);
+        }
         let ops = ChunkerFamily.gen_case(rng, idx, thorough);
         let mut out = Vec::new();
         for op in ops {
@@ -475,6 +478,87 @@ impl Family for ReaderWFamily {
     }
 
     fn gen_case(&self, rng: &mut Rng, idx: u64, thorough: bool) -> Vec<String> {
+        if rng.chance(1, 3) {
+            return rollover_reader_case(rng);
+        }
         ReaderFamily.gen_case(rng, idx, thorough)
     }
+}
+
+// ------------------------------------------------------------------ chunk-rollover generators
+
+/// Records with mid-size / large payloads (borrowed, not copied, by `decode_anchored`), enough of them
+/// that the arena fills its first chunks and moves on: slices handed out earlier then live in chunks that
+/// only their own anchors keep alive.
+fn rollover_stream(rng: &mut Rng, total: usize) -> Vec<u8> {
+    let mut s = Vec::new();
+    while s.len() < total {
+        let len = match rng.below(6) {
+            0 => rng.range(1, 64),
+            1 => rng.range(65, 256),
+            2 | 3 => rng.range(257, 700),
+            _ => rng.range(700, 2500),
+        } as usize;
+        let fe_every = *rng.pick(&[0usize, 0, 97, 301]);
+        let payload: Vec<u8> = (0..len)
+            .map(|k| if fe_every > 0 && k % fe_every == fe_every - 1 { 0xFE } else { 0x61 + (k % 7) as u8 })
+            .collect();
+        let mut enc = hcobs::Encoder::new();
+        enc.encode_copy(&payload);
+        s.extend(enc.finish().flatten().expect("no pending backpatch after finish"));
+        if rng.chance(1, 10) {
+            s.push(0xFF); // a corrupt record now and then
+        }
+        s.extend_from_slice(&[0xFE, 0xFD]);
+    }
+    s
+}
+
+fn rollover_script(rng: &mut Rng, n: usize) -> String {
+    match rng.below(4) {
+        0 => format!("d{}*{}", rng.range(100, 900), n / 100 + 4),
+        1 => format!("x0,d{}*{}", rng.range(1000, 5000), n / 1000 + 4),
+        _ => format!("d100000*{}", n + 4),
+    }
+}
+
+fn rollover_chunker_case(rng: &mut Rng) -> Vec<String> {
+    let total = rng.range(4500, 20000) as usize;
+    let stream = rollover_stream(rng, total);
+    let block = *rng.pick(&[300usize, 700, 1000, 1024, 2048, 3000, 4096, 4097, 5000]);
+    let mut ops = vec![
+        format!("stream {}", to_hex(&stream)),
+        format!("script {}", rollover_script(rng, stream.len())),
+        format!("block {}", block),
+    ];
+    let rounds = stream.len() / block + 3;
+    for _ in 0..rounds {
+        for _ in 0..rng.range(1, 4) {
+            ops.push("pump".to_string());
+        }
+        if rng.chance(1, 2) {
+            ops.push(format!("release {}", rng.range(0, 3)));
+        }
+    }
+    ops.push(format!("drain {} 1", 2 * rounds + 8));
+    ops.push(format!("release {}", rng.range(1, 4)));
+    ops.push("pump".to_string());
+    ops
+}
+
+fn rollover_reader_case(rng: &mut Rng) -> Vec<String> {
+    let total = rng.range(4500, 16000) as usize;
+    let stream = rollover_stream(rng, total);
+    let block = *rng.pick(&[300usize, 700, 1000, 1024, 2048, 3000, 4096, 4097, 5000]);
+    let nrec = stream.windows(2).filter(|w| w == &[0xFE, 0xFD]).count();
+    let mut ops = vec![
+        format!("stream {}", to_hex(&stream)),
+        format!("script {}", rollover_script(rng, stream.len())),
+        format!("block {}", block),
+    ];
+    if rng.chance(1, 3) {
+        ops.push(format!("judge std {} none", rng.range(200, 3000)));
+    }
+    ops.push(format!("nextall {} 1", nrec + 4));
+    ops
 }
